@@ -134,7 +134,14 @@ pub fn program_check(prog: &Program, input: &[i64], sig_prefix: String, hosts: u
             if &got != exp {
                 return Err(Fail::new(
                     format!("{sig_prefix}wrong-result"),
-                    format!("sink {i}: got {:?}, sequential meaning is {:?}", got, exp),
+                    if got.len() + exp.len() > 80 {
+                        let mut g2 = got.clone();
+                        g2.sort();
+                        let first = g2.iter().zip(exp.iter()).position(|(a, b)| a != b);
+                        format!("sink {i}: got {} elements, the sequential meaning has {}; the sorted results first differ at position {:?}", got.len(), exp.len(), first)
+                    } else {
+                        format!("sink {i}: got {:?}, sequential meaning is {:?}", got, exp)
+                    },
                 ));
             }
         }
